@@ -617,6 +617,21 @@ structure ScanSite where
   allowed : Bool           -- on the generator's justified allow-list of benign sites
 deriving DecidableEq, Repr
 
+/-- A class-level (or module-level) attribute of the package bound to a mutable value that
+    some function mutates through an instance (without rebinding it on the instance first),
+    through the class, or through an alias: one object per *process*, reachable from every
+    instance of the class, contained in no pickled or deep-copied instance.  The traversal
+    that measures `SamplerRow.crossChain` does not descend into classes (neither does
+    pickle), so this is the sharing edge that column cannot see. -/
+structure ClassState where
+  file : String            -- where the attribute is bound
+  owner : String           -- "class <name>" | "module"
+  attr : String
+  value : String           -- source text of the value it is bound to
+  mutation : String        -- file: function: first mutating statement
+  allowed : Bool           -- on the generator's justified allow-list
+deriving DecidableEq, Repr
+
 /-- Index of `x` among the distinct values seen so far (appending it if new). -/
 def classIndex {α} [DecidableEq α] : List α → α → Nat
   | [], _ => 0
